@@ -80,6 +80,10 @@ CHECKS = {
    text="Stateless enumeration of all sequences (depth 4 quick / 5 thorough) over set, cset, delete, single- and multi-key pdelete, connect, grave-goods/last-will registration, disconnect and 'settle' steps on a core built by the real persistence::restore in ReDB mode: the background writer only runs at settle steps, so every batching of the queued changes is produced; every sequence ends with a crash (the whole runtime is dropped) or with a clean stop (flush), then a fresh runtime restores from the database file; the recovered content (values, kinds, versions, registrations applied) must be the reference state after some prefix of the single-key change sequence that contains everything committed before the last settle (all of it after a clean stop).",
    note="redb's transaction atomicity/durability is trusted (process-crash model at transaction granularity); syscall-level crash points inside a commit are not enumerated.",
    technique="bounded-exhaustive exploration of writer batchings and stop points on the real ReDB persistence path (prefix-consistency oracle)"),
+ "C20": dict(cat="model_checking", engine="wbmc-core/sched", ref="DESIGN.md §3 C20",
+   text="Schedule exploration of the real client library over its unix transport against the real serve loop and a core task that processes a request only when the explorer grants a permit: every interleaving of 'task i submits its next call' and 'server processes the next queued request' for 2-3 tasks on cloned handles with 2-3 calls each on colliding keys (explored to the end); each call must resolve with the reference's answer to that very call (typed results), never earlier; racing update() calls must not lose an acknowledged increment; the send buffer is driven on a paused clock through all sequences of set_later/publish_later/advance (each key's latest buffered value is sent once per kind, nothing else is sent); all unsubscribe variants (value, pattern, ls x awaited, fire-and-forget) must remove the server-side subscription and stop the events.",
+   note="One stimulus outstanding at a time (paused current-thread runtime, fixed number of yields, never parking); a real unix socket lives inside the runtime, guarded by the explorer's determinism self-check; the in-process 'local' transport is not covered.",
+   technique="deviation-free exhaustive schedule exploration of the real client library against the real server session (gated core task), explicit-state de-duplication"),
 }
 
 NOT_YET = {}
